@@ -31,8 +31,19 @@ def Res.render (id : String) (r : Res) : String :=
   let t := String.intercalate " " r.tags
   s!"res {id} {r.verdict} {t}" ++ (if r.msg.isEmpty then "" else " | " ++ r.msg)
 
-/-- |a - b| ≤ 1e-9 -/
-def close (a b : Rat) : Bool := rabs (a - b) ≤ 1 / pow10 9
+/-- |a - b| ≤ 1e-9, or — for figures beyond 10^13, where a 28-digit decimal cannot resolve 1e-9
+    any more — a relative difference of at most 1e-22. -/
+def close (a b : Rat) : Bool :=
+  rabs (a - b) ≤ 1 / pow10 9 ||
+  rabs (a - b) ≤ (if rabs a < rabs b then rabs b else rabs a) / pow10 22
+
+/-- like `close`, for a figure obtained as a difference of figures of magnitude `mag` -/
+def closeAt (mag a b : Rat) : Bool := close a b || rabs (a - b) ≤ rabs mag / pow10 22
+
+def closeOptAt (mag : Rat) : Option Rat → Option Rat → Bool
+  | none, none => true
+  | some a, some b => closeAt mag a b
+  | _, _ => false
 
 def closeOpt : Option Rat → Option Rat → Bool
   | none, none => true
